@@ -24,7 +24,7 @@ CHECKS = {
             'Hypothesis-generated route/mode/path/query cases; reference dispatcher decides whether a redirect is due; redirect-follow round trip',
             'For generated slash-mode configurations (application, route, embedded, inherited or not), decoded segments with '
             'URL-significant characters and arbitrary query strings, a due redirect is parsed with urllib, compared with the '
-            'canonical path and query, and followed: it must reach the same route with the same parameters in one hop.',
+            'canonical path and query, and followed: it must reach the same route with the same parameters in one hop. Whether embedded routes inherit the mode is said in three ways (SubApplication flag, add() keyword, overridden flag); a complete way x inheritance x mode^3 x path shape x method family runs in every tier.',
             'trusts urllib.parse and the reference models; query strings that are not URL-legal are compared after percent-decoding',
             'DESIGN.md §4 C07'),
     'C01': ('exploration',
@@ -80,7 +80,7 @@ CHECKS = {
             'Histories of requests over routes of every outcome kind interleaved with stats reads and resets are compared, after '
             'every read/reset, with a model counter keyed by (pattern, status or exception name); a second machine drives the '
             'sample store with adds far beyond capacity, resizes and reseeds and checks capacity bound, exact total count, '
-            'membership and never-raises after every step. The application under test lists its one middleware object also on a Route and an embedded application, and embeds an application with a StatsMiddleware and stats mount of its own (reads and resets through either mount).',
+            'membership and never-raises after every step. The application under test lists its one middleware object also on a Route and an embedded application, and embeds an application with a StatsMiddleware and stats mount of its own (reads and resets through either mount). A complete family of histories over routes bound twice (one application under two prefixes, one Route in two embedded applications) runs in every tier.',
             'stats report read through the public JSON endpoint; reset request may be accounted to either epoch',
             'DESIGN.md §4 C19'),
     'C20': ('exploration',
@@ -104,7 +104,7 @@ CHECKS = {
             'Histories of set/delete/clear/read requests by two clients, clock advances around the expiry, replays of any issued '
             'cookie and 12 tampering operators are run against a server with SignedCookieMiddleware; for the exact cookie string '
             'sent the ledger decides what may be presented (that entry\'s data if intact and unexpired, otherwise an empty cookie) '
-            'and the response must be a normal 200; a second campaign mutates a valid cookie value structurally and freely. Complete parts: key x value round trip; server key kind (ASCII, non-Latin-1 text, bytes) x slightly different foreign keys.',
+            'and the response must be a normal 200; a second campaign mutates a valid cookie value structurally and freely. Complete parts: key x value round trip; server key kind (ASCII, non-Latin-1 text, bytes) x slightly different foreign keys. The round-trip catalogue includes strings outside well-formed Unicode (unpaired surrogates), non-BMP and control characters.',
             'clock is patched from outside into the two modules that read it; lenient base64 and the whole-second expiry window allow two outcomes in narrow, stated cases',
             'DESIGN.md §4 C16'),
     'C15': ('exploration',
@@ -112,7 +112,7 @@ CHECKS = {
             'Every built-in middleware in its default configuration, alone (all scenarios x Accept-Encoding x GET/HEAD, application '
             'and route level: enumerated completely) and in generated stacks, is compared with the same application without it: '
             'equal status, equal body after undoing gzip, gzip only for clients that accept it, Content-Length equal to the bytes '
-            'sent, Vary: Accept-Encoding on both variants of a compressible URL, HEAD consistent with GET.',
+            'sent, Vary: Accept-Encoding on both variants of a compressible URL, HEAD consistent with GET. Three endpoints consume what the GET/POST extractors and the script-root middleware provide (complete query x form x method family), so a value taken from the wrong source or converted differently changes the body.',
             'both sides run clastic (a defect that affects both identically is invisible here; C06/C08 cover those against models); uncaught-exception pages compared by status and first line',
             'DESIGN.md §4 C15'),
     'C14': ('fault_enumeration',
@@ -132,7 +132,7 @@ CHECKS = {
             'str header pairs, bytes chunks, no body for HEAD, files closed after close()); generated stacks of wrapper middlewares '
             '(embedding, unique type at two levels, no routes) must run in the modelled order; RerouteWSGI (endpoint, raised from '
             'endpoint / middleware / render) must hand the same environ object with every original entry intact and relay '
-            'status, headers and body verbatim.',
+            'status, headers and body verbatim. A complete family of failing targets / wrappers (raising before or after start_response, while iterating, after the inner application answered) must never lead to a second start_response without exc_info.',
             '204/304 are checked by the own recorder only (the validator also enforces an HTTP recommendation about Content-Type there)',
             'DESIGN.md §4 C13'),
     'C18': ('exploration',
